@@ -295,13 +295,24 @@ func c17Check(c *mon.Ctx, k *c17Case) {
 func c17Gen(r *mon.Rand, withK4 bool) *c17Case {
 	k := &c17Case{StartSeq: mon.Pick(r, []uint32{1, 100, 0xFFFFFFF0, 0x7FFFFFFE}), Seed: r.Uint64(), Closers: mon.Pick(r, []int{1, 1, 2, 4, 8}), ExtraClose: r.Intn(5)}
 	n := r.Range(1, 14)
+	burst := r.Chance(1, 12) // a long run of NoWait requests (dozens of outstanding ACKs) before waiting
+	if burst {
+		n = r.Range(20, 70)
+	}
 	outstanding := 0
 	errnos := []int{0, 0, 0, 0, int(syscall.EPERM), int(syscall.EINVAL), int(syscall.EBUSY)}
 	for len(k.Ops) < n {
 		var op c17Op
-		switch x := r.Intn(100); {
+		x := r.Intn(100)
+		if burst && len(k.Ops) < n-3 {
+			x = r.Intn(30) // mostly NoWait requests, errors rare
+		}
+		switch {
 		case x < 35:
 			op = c17Op{Kind: "nowait", Errno: mon.Pick(r, errnos)}
+			if burst && !r.Chance(1, 15) {
+				op.Errno = 0
+			}
 			if r.Chance(1, 8) {
 				op.Kind = "setpid-nowait"
 			}
@@ -332,7 +343,7 @@ func c17Gen(r *mon.Rand, withK4 bool) *c17Case {
 func init() {
 	register(&mon.CheckSpec{
 		ID: "C17", Level: "exploration",
-		Rule: "cases = seeded histories (1-14 ops) over a simulated kernel that reuses one receive buffer and may refuse any request: NoWait setters (incl. SetPID), WaitForPendingACKs (repeated, with nothing outstanding, after an error among the ACKs), WaitForReply setters, GetRules / GetStatus followed by more traffic, then Close from 1-8 goroutines at once followed by 0-4 further Close calls; a reference list of outstanding NoWait requests decides how many ACK datagrams each WaitForPendingACKs call must consume, what it returns and that it never waits on an empty socket; every rule slice returned by GetRules is compared with its snapshot after every later operation; Close is checked through the simulated socket's close counter and the requests it sends. A tenth of the histories issue a WaitForReply command while NoWait ACKs are outstanding (known finding K4). Runs under the race detector (concurrent Close). distinct_nontrivial = distinct histories containing a repeated WaitForPendingACKs, an error among pending ACKs, held rule data or concurrent Close.",
+		Rule: "cases = seeded histories (1-14 ops; one in twelve has 20-70 ops with dozens of NoWait requests outstanding at once) over a simulated kernel that reuses one receive buffer and may refuse any request: NoWait setters (incl. SetPID), WaitForPendingACKs (repeated, with nothing outstanding, after an error among the ACKs), WaitForReply setters, GetRules / GetStatus followed by more traffic, then Close from 1-8 goroutines at once followed by 0-4 further Close calls; a reference list of outstanding NoWait requests decides how many ACK datagrams each WaitForPendingACKs call must consume, what it returns and that it never waits on an empty socket; every rule slice returned by GetRules is compared with its snapshot after every later operation; Close is checked through the simulated socket's close counter and the requests it sends. A tenth of the histories issue a WaitForReply command while NoWait ACKs are outstanding (known finding K4). Runs under the race detector (concurrent Close). distinct_nontrivial = distinct histories containing a repeated WaitForPendingACKs, an error among pending ACKs, held rule data or concurrent Close.",
 		Assumptions: []string{
 			"the simulated kernel acknowledges requests in the order they were sent, as the real kernel does",
 			"waiting on an empty socket is observed as a Receive that finds nothing queued (the library would sleep 10 x 50 ms there)",
